@@ -15,6 +15,9 @@ package main
 // Everything is written and read with the REAL FileSnapshotStore / raft.LastStateRaw / OfflineState / CleanupRaft / SnapshotSave.
 
 import (
+	"bytes"
+	"context"
+	"crypto/rand"
 	"fmt"
 	"io/ioutil"
 	"os"
@@ -24,6 +27,8 @@ import (
 	"time"
 
 	hraft "github.com/hashicorp/raft"
+	crypto "github.com/libp2p/go-libp2p-core/crypto"
+	peer "github.com/libp2p/go-libp2p-core/peer"
 	"github.com/ipfs/ipfs-cluster/consensus/raft"
 	p2praft "github.com/libp2p/go-libp2p-raft"
 
@@ -33,6 +38,7 @@ import (
 type snapItem struct {
 	kind           string // s t m f
 	term, index, c int
+	bad            bool // round 8c: state.bin no longer matches the CRC in meta.json (`T.I.Cd`)
 }
 
 type snapsCase struct {
@@ -49,7 +55,11 @@ func (c snapsCase) input() string {
 		var w []string
 		for _, x := range c.items {
 			if x.kind == "s" {
-				w = append(w, fmt.Sprintf("%d.%d.%d", x.term, x.index, x.c))
+				d := ""
+				if x.bad {
+					d = "d"
+				}
+				w = append(w, fmt.Sprintf("%d.%d.%d%s", x.term, x.index, x.c, d))
 			} else {
 				w = append(w, x.kind)
 			}
@@ -69,13 +79,13 @@ func parseSnapsCase(f []string) (snapsCase, bool) {
 		c.absent = true
 	case "-":
 	default:
-		seen := map[[2]int]bool{}
 		for _, w := range strings.Split(f[0], ",") {
 			if w == "t" || w == "m" || w == "f" {
 				c.items = append(c.items, snapItem{kind: w})
 				continue
 			}
-			p := strings.Split(w, ".")
+			bad := strings.HasSuffix(w, "d")
+			p := strings.Split(strings.TrimSuffix(w, "d"), ".")
 			if len(p) != 3 {
 				return c, false
 			}
@@ -87,23 +97,35 @@ func parseSnapsCase(f []string) (snapsCase, bool) {
 				}
 				v[i] = n
 			}
-			if v[0] < 1 || v[0] > 90 || v[1] < 1 || v[1] > 9000 || v[2] >= len(cidTab) || seen[[2]int{v[0], v[1]}] {
+			if v[0] < 1 || v[0] > 90 || v[1] < 1 || v[1] > 9000 || v[2] >= len(cidTab) {
 				return c, false
 			}
-			seen[[2]int{v[0], v[1]}] = true
-			c.items = append(c.items, snapItem{"s", v[0], v[1], v[2]})
+			// round 8c: two snapshots of one (term, index) are allowed (the id = creation millisecond decides)
+			c.items = append(c.items, snapItem{"s", v[0], v[1], v[2], bad})
 		}
 	}
 	c.op = f[1]
 	if c.op == "o" || c.op == "c" {
 		return c, true
 	}
-	if strings.HasPrefix(c.op, "s") {
+	if c.op == "b" { // round 8c: start a real peer on the folder (needs at least one listed snapshot)
+		for _, it := range c.items {
+			if it.kind == "s" {
+				return c, true
+			}
+		}
+		return c, false
+	}
+	if strings.HasPrefix(c.op, "s") || strings.HasPrefix(c.op, "i") {
 		n, err := strconv.Atoi(c.op[1:])
 		return c, err == nil && n >= 0 && n < len(cidTab)
 	}
 	return c, false
 }
+
+// snapConf is the server configuration written into the snapshots of the case being set up (op `b` needs the
+// identity of the peer that will be started as the single voter; the cases run one at a time)
+var snapConf hraft.Configuration
 
 func writeFileSnapshot(folder string, term, index, c int) (string, error) {
 	store, err := hraft.NewFileSnapshotStoreWithLogger(folder, 100, nil)
@@ -111,7 +133,7 @@ func writeFileSnapshot(folder string, term, index, c int) (string, error) {
 		return "", err
 	}
 	_, tr := hraft.NewInmemTransport("")
-	sink, err := store.Create(1, uint64(index), uint64(term), hraft.Configuration{}, 1, tr)
+	sink, err := store.Create(1, uint64(index), uint64(term), snapConf, 1, tr)
 	if err != nil {
 		return "", err
 	}
@@ -144,13 +166,41 @@ func runSnaps(c snapsCase) string {
 	base := scratch("snaps")
 	defer os.RemoveAll(base)
 	folder := filepath.Join(base, "raft")
+	snapConf = hraft.Configuration{}
+	var bootKey crypto.PrivKey
+	if c.op == "b" {
+		priv, pub, err := crypto.GenerateEd25519Key(rand.Reader)
+		if err != nil {
+			fatal("snaps setup: %v", err)
+		}
+		id, _ := peer.IDFromPublicKey(pub)
+		bootKey = priv
+		sid := hraft.ServerID(peer.Encode(id))
+		snapConf = hraft.Configuration{Servers: []hraft.Server{{Suffrage: hraft.Voter, ID: sid, Address: hraft.ServerAddress(sid)}}}
+	}
 	if !c.absent {
 		os.MkdirAll(filepath.Join(folder, "snapshots"), 0755)
 		for _, it := range c.items {
 			switch it.kind {
 			case "s":
-				if _, err := writeFileSnapshot(folder, it.term, it.index, it.c); err != nil {
+				id, err := writeFileSnapshot(folder, it.term, it.index, it.c)
+				if err != nil {
 					fatal("snaps setup: %v", err)
+				}
+				if it.bad { // same length, one byte changed: FileSnapshotStore.Open reports "CRC mismatch"
+					sp := filepath.Join(folder, "snapshots", id, "state.bin")
+					b, err := ioutil.ReadFile(sp)
+					if err != nil {
+						fatal("snaps setup: state.bin of %s: %v", id, err)
+					}
+					if len(b) == 0 {
+						b = []byte{0x5a}
+					} else {
+						b[len(b)/2] ^= 0x5a
+					}
+					if err := ioutil.WriteFile(sp, b, 0644); err != nil {
+						fatal("snaps setup: %v", err)
+					}
 				}
 			case "t":
 				// an interrupted snapshot: complete content, the final rename did not happen
@@ -177,9 +227,43 @@ func runSnaps(c snapsCase) string {
 	pre := observeFolder(folder)
 	meta, _ := listMeta(folder)
 	failed := 0
+	started := ""
 	switch {
+	case c.op == "b":
+		// the REAL consensus component started on the folder as its single voter: what it serves once ready
+		started = "?"
+		if sp, err := bootPeer(bootKey, folder); err == nil {
+			if st, err := sp.cc.State(context.Background()); err == nil {
+				if l, err := listPins(st); err == nil {
+					if len(l) == 0 {
+						started = "0"
+					} else if len(l) == 1 && l[0].cid >= 1 {
+						started = strconv.Itoa(l[0].cid)
+					}
+				}
+			}
+			sp.stop()
+		}
+		return fmt.Sprintf("pre=%s meta=%s start=%s", pre, meta, started)
 	case c.op == "c":
 		if err := safely(func() error { return raft.CleanupRaft(raftCfg(folder, 3)) }); err != nil {
+			failed = 1
+		}
+	case c.op[0] == 'i':
+		// round 8c: `state import` of {CidN(n)} with the REAL raft state manager (Clean, then SnapshotSave)
+		n, _ := strconv.Atoi(c.op[1:])
+		_, pub, err := crypto.GenerateEd25519Key(rand.Reader)
+		if err != nil {
+			fatal("snaps setup: %v", err)
+		}
+		id, _ := peer.IDFromPublicKey(pub)
+		var cids []int
+		if n > 0 {
+			cids = []int{n}
+		}
+		exp := exportOfCids(cids, id)
+		m := startManager(base, id)
+		if err := safely(func() error { return m.ImportState(bytes.NewReader(exp)) }); err != nil {
 			failed = 1
 		}
 	case c.op[0] == 's':
@@ -230,15 +314,66 @@ func genSnapsCase(r *common.Rng, k, total int) snapsCase {
 				}
 				seen[[2]int{t, ix}] = true
 				keys = append(keys, [2]int{t, ix})
-				c.items = append(c.items, snapItem{"s", t, ix, r.Intn(9)})
+				c.items = append(c.items, snapItem{"s", t, ix, r.Intn(9), false})
 			}
 		}
+	}
+	// round 8c: a damaged snapshot (half of the time the newest one) and/or a second snapshot of an existing (term, index)
+	var sn []int
+	for i, it := range c.items {
+		if it.kind == "s" {
+			sn = append(sn, i)
+		}
+	}
+	if len(sn) > 0 {
+		mode := r.Intn(10)
+		if mode == 0 || mode == 1 { // tie: created LAST or somewhere in between
+			src := c.items[sn[r.Intn(len(sn))]]
+			dup := snapItem{"s", src.term, src.index, (src.c + 1 + r.Intn(7)) % 9, false}
+			if r.Intn(2) == 0 {
+				c.items = append(c.items, dup)
+			} else {
+				at := r.Intn(len(c.items) + 1)
+				c.items = append(c.items[:at], append([]snapItem{dup}, c.items[at:]...)...)
+			}
+		}
+		if mode == 1 || mode == 2 || mode == 3 {
+			best := -1
+			for i, it := range c.items {
+				if it.kind != "s" {
+					continue
+				}
+				if best < 0 || it.term > c.items[best].term || (it.term == c.items[best].term && it.index >= c.items[best].index) {
+					best = i
+				}
+			}
+			if r.Intn(2) == 0 {
+				c.items[best].bad = true
+			} else {
+				var all []int
+				for i, it := range c.items {
+					if it.kind == "s" {
+						all = append(all, i)
+					}
+				}
+				c.items[all[r.Intn(len(all))]].bad = true
+				if r.Intn(3) == 0 {
+					c.items[all[r.Intn(len(all))]].bad = true
+				}
+			}
+		}
+	}
+	if len(sn) > 0 && r.Intn(40) == 0 {
+		c.op = "b"
+		return c
 	}
 	switch x := r.Intn(10); {
 	case x < 2:
 		c.op = "o"
 	case x < 4:
 		c.op = "c"
+	case x < 6:
+		c.op = fmt.Sprintf("i%d", r.Intn(9))
 	default:
 		c.op = fmt.Sprintf("s%d", r.Intn(9))
 	}
